@@ -124,6 +124,8 @@ def path_item(item):
         segs, lead, trail = P.segments(els)
         if m.ext and not all(D.definable(s) for s in segs):
             return 'skipped', []
+        if any(len(s) >= 2 and all(t[0] == 'star' for t in s) for s in segs):
+            return 'skipped', []          # `*` `*` renders as `**`: ambiguous with the globstar token
         if internal:
             pos, neg = W.translate(pt, G._flag_transform(flags) | internal)
         else:
@@ -137,6 +139,8 @@ def path_item(item):
             dom = D.dom_relative(m) if rel else D.dom_nonempty(m)
             if not m.dot:
                 dom = R.s_and(dom, R.s_not(D.dom_hidden_path(m)))
+            else:
+                dom = R.s_and(dom, R.s_not(D.dom_dotdir_segment(m)))       # `.` / `..` segments belong to C03
         elif domain == 'hidden':
             dom = R.s_and(D.dom_relative(m) if rel else D.dom_nonempty(m), D.dom_hidden_path(m))
         else:
